@@ -410,9 +410,12 @@ class Resolver:
             x = self.to_re(n[1], level, in_word)
             return cat(x, star(x))
         if k == 'sub':
+            # levels inside a word are relative to the word (an item outside every within-word `||`
+            # has level 0 there), so that the same within-word expression is the same item whichever
+            # outer `||` branch it sits in
             r = EPS
             for c in reversed(n[1]):
-                r = cat(self.to_re(c, level, True), r)
+                r = cat(self.to_re(c, level if in_word else 0, True), r)
             if in_word:
                 return r
             return item(('sub', self.sub_class(r), level))
@@ -469,11 +472,11 @@ def expected_rejection(resolver, auto):
 
 
 def tolerated_rejections(resolver):
-    """Rejections that are not predicted exactly but are not treated as generator failures either:
-    complgen's placeholder-inside-a-word rule is stricter than 'must be the last item' (it also
-    rejects `--o=[foo]<_>`); C08 is not claimed, so such grammars are only counted."""
-    for m in resolver.sub_autos:
-        for row in m.trans:
-            if ('any',) in row:
-                return {'UnboundedMatchable'}
+    """Rejections that are not predicted exactly but are not treated as generator failures either.
+    complgen's within-word rules are stricter than their documentation in places: the placeholder rule
+    also rejects `--o=[foo]<_>`, and the adjacent-literals rule fires for `--o=<N>` with `<N> = abc`
+    only when the reference sits inside another definition. C08 is not claimed, so such grammars are
+    counted (and the run is inconclusive if they become frequent), not analysed."""
+    if resolver.sub_autos:
+        return {'UnboundedMatchable', 'SubwordSpaces'}
     return set()
